@@ -48,7 +48,8 @@ template <class RandomAccessIterator, class Callback> struct KernelDistance
     }
     inline ScalarType distance(const RandomAccessIterator& l, const RandomAccessIterator& r)
     {
-        return sqrt(callback.kernel(*l, *l) - 2 * callback.kernel(*l, *r) + callback.kernel(*r, *r));
+        // rounding can make the squared distance of two close points slightly negative
+        return sqrt(std::max<ScalarType>(0, callback.kernel(*l, *l) - 2 * callback.kernel(*l, *r) + callback.kernel(*r, *r)));
     }
     typedef KernelType type;
     Callback callback;
